@@ -98,6 +98,42 @@ def ofList (vs : List Int) : Cap := fun f =>
   | some p => p.2
   | none => 0
 
+/-! ### objects that lack fields (restored from a pickle written by an older release)
+
+Unpickling restores `__dict__` as it was saved and does not run `__init__`: an object stored before a field was introduced
+comes back WITHOUT that field.  `__eq__` is the one method that caters for it: it loops over the LEFT operand's own
+`__dict__` and reads the other side with `other.__dict__.get(f, <default>)`.  `PCap` = which of the class's fields the
+object carries + the values; the default the other side is read with is *probed on the real method* by the translator
+(`Gen.CapOps.eqMissing`: `some d` = a missing field reads as the int `d`; `none` = it reads as something no int equals,
+e.g. Python's `None`). -/
+
+structure PCap where
+  has : String → Bool
+  val : Cap
+
+/-- a current object: every field present -/
+def PCap.full (c : Cap) : PCap := { has := fun _ => true, val := c }
+
+/-- what `other.__dict__.get(f, default)` gives -/
+def PCap.read (y : PCap) (f : String) : Option Int := if y.has f then some (y.val f) else eqMissing
+
+/-- `__eq__` between objects either of which may lack fields: the loop runs over the fields the LEFT operand carries -/
+def eqD (x y : PCap) : Bool :=
+  (fields.filter x.has).all fun f =>
+    match y.read f with
+    | some w => !eqFail (x.val f) w
+    | none => false
+
+/-- the value an object stands for when "a field an old object does not carry counts as 0" -/
+def PCap.value (x : PCap) : Cap := fun f => if x.has f then x.val f else 0
+
+/-- build from values in field order + presence flags in field order (missing flag = present) -/
+def PCap.ofLists (vs : List Int) (ms : List Bool) : PCap :=
+  { has := fun f => match (fields.zip ms).find? (fun p => p.1 == f) with
+                    | some p => p.2
+                    | none => true,
+    val := ofList vs }
+
 /-! ### `__str__` : `"{ cpu: 1 , ram: 1,000 G}"`-style rendering with thousands separators -/
 
 def groupDigits (ds : List Char) : List Char :=
